@@ -564,7 +564,9 @@ func (d *cStateDb) CommitMultiStore(deleteEmptyObjects bool) error {
 
 	d.committed = true // prohibit further commit
 
-	for touchedAddress := range d.touched {
+	// destroy in ascending address order: destroying an account emits (bank) events,
+	// so the order must not depend on Go's randomised map iteration
+	for _, touchedAddress := range d.touched.sortedAddresses() {
 		_, markedAsDestroy := d.selfDestructed[touchedAddress]
 		if markedAsDestroy || (deleteEmptyObjects && d.Empty(touchedAddress)) {
 			d.DestroyAccount(touchedAddress)
